@@ -18,7 +18,7 @@ def step : Sexp → Option Sexp
       let n ← fl.toNat?; let e ← decE e
       if (n / Tables.flagFloatingPointArithmetic) % 2 == 1 then pure (list [atom "skip"]) else
       let fl := decFlags n
-      if (fl.intA && (hasRealPow e || hasBigLit e)) || (fl.flatten && nestedQuot e) then pure (list [atom "skip"]) else
+      if (fl.intA && hasRealPow e) || (fl.flatten && nestedQuot e) then pure (list [atom "skip"]) else
       match simp (kStr false) fl fuel e with
       | some r =>
         -- the strict model (the one under the theorem) must give the same tree whenever it gives one
